@@ -1181,6 +1181,21 @@ theorem prefixLegalWsgi_start {s : Str} {hs : List (Str × Str)} {rest : List WE
 theorem prefixLegalWsgi_nil : PrefixLegalWsgi [] := ⟨_, legalWsgi_exists⟩
 theorem prefixLegalWsgi_raise (k : String) : PrefixLegalWsgi [.raise k] := ⟨_, legalWsgi_exists⟩
 
+/-- cutting a conversation after its first event and ending it with an exception keeps it a legal prefix -/
+theorem prefixLegalWsgi_gone {t : List WEv} (h : PrefixLegalWsgi t) : PrefixLegalWsgi (goneW t) := by
+  cases t with
+  | nil => exact h
+  | cons e rest =>
+    obtain ⟨t', ht'⟩ := h
+    cases e with
+    | raise k => exact ⟨t', ht'⟩
+    | startResponse s hs =>
+      refine ⟨deliveredW rest ++ t', ?_⟩
+      simpa [goneW, deliveredW, WEv.isRaise] using ht'
+    | yield d =>
+      refine ⟨deliveredW rest ++ t', ?_⟩
+      simpa [goneW, deliveredW, WEv.isRaise] using ht'
+
 theorem mem_take {α : Type} {l : List α} {k : Nat} {x : α} (h : x ∈ l.take k) : x ∈ l := List.mem_of_mem_take h
 
 /-! ### ASGI -/
@@ -1224,6 +1239,23 @@ theorem legalAsgi_noRaise {zc : Bool} {t : List AEv} (h : LegalAsgi zc t) : ∀ 
     | raise k => exact absurd h (by simp [LegalAsgi])
 
 /-- a legal conversation that is cut by a failing `send` (or not cut at all) leaves a legal prefix -/
+theorem prefixLegalAsgi_gone {zc : Bool} {t : List AEv} (h : PrefixLegalAsgi zc t) : PrefixLegalAsgi zc (goneA t) := by
+  cases t with
+  | nil => exact h
+  | cons e rest =>
+    obtain ⟨t', ht'⟩ := h
+    cases e with
+    | raise k => exact ⟨t', ht'⟩
+    | start s hs =>
+      refine ⟨deliveredA rest ++ t', ?_⟩
+      simpa [goneA, deliveredA, AEv.isRaise] using ht'
+    | body d m =>
+      refine ⟨deliveredA rest ++ t', ?_⟩
+      simpa [goneA, deliveredA, AEv.isRaise] using ht'
+    | zerocopy o c m =>
+      refine ⟨deliveredA rest ++ t', ?_⟩
+      simpa [goneA, deliveredA, AEv.isRaise] using ht'
+
 theorem runSends_prefix {zc : Bool} {t : List AEv} (h : LegalAsgi zc t) (failAt : Option Nat) :
     PrefixLegalAsgi zc (runSends failAt t) := by
   have hn := legalAsgi_noRaise h
